@@ -153,7 +153,7 @@ def build_chain_contract(chk: Check, search) -> None:
             "config": Rec("Config", {"use_helicity_couplings": couplings}),
             "naming": Rec("Naming", {}),
             "__ingredients": Rec("Ingredients", {"components": comps}),
-        })
+        }, real_class=H.HelicityAmplitudeBuilder)  # private helper methods of the real class are interpreted, not assumed
         ex.natives["Builder._formulate_partial_decay"] = lambda e, st, a, kw, p=p: iter([(st, SV(p[a[2]], "real"))])
         ex.natives["Builder.__generate_amplitude_coefficient"] = lambda e, st, a, kw: iter([(st, SV(coef, "real"))])
         ex.natives["Builder.__generate_amplitude_prefactor"] = lambda e, st, a, kw, has_pf=has_pf: iter([(st, SV(pf, "real") if has_pf else None)])
